@@ -211,7 +211,12 @@ fn future_body(ctx: Arc<Ctx>, id: usize, obj: usize, gate: Option<usize>, counts
 fn call_begin(ctx: &Arc<Ctx>, node: &Node, thread: usize, obj: usize) {
     let c = &ctx.calls[node.id];
     ctx.status.lock().unwrap().insert(thread, (node.id, c.kind, obj));
-    rt::emit(&format!("inv {} {} {}", node.id, c.kind, obj));
+    let extra = match &node.op {
+        Op::FDesync(_, g, _) | Op::FSync(_, g, _) => match g { Some(g) => format!(" {}", g), None => " -".to_string() },
+        Op::After(_, g, _) => format!(" {}", g),
+        _ => String::new(),
+    };
+    rt::emit(&format!("inv {} {} {}{}", node.id, c.kind, obj, extra));
     c.inv.store(ctx.tick(), Ordering::SeqCst);
 }
 
@@ -451,7 +456,7 @@ pub fn run_ops(ctx: &Arc<Ctx>, ops: &[Node], thread: usize) {
             Op::Open(g) => {
                 rt::emit(&format!("inv {} open {}", node.id, g));
                 let senders = { let mut gs = ctx.gates[*g].lock().unwrap(); gs.open = true; std::mem::take(&mut gs.waiting) };
-                for s in senders { s.send(()).ok(); }
+                for s in senders { rt::emit(&format!("gsend {}", g)); s.send(()).ok(); }
                 rt::emit(&format!("ret {} ok", node.id));
             }
             Op::DropObj(o) => {
@@ -584,7 +589,11 @@ pub fn execute(ctx: &Arc<Ctx>) {
             for o in 0..prog.objects {
                 if let Some(obj) = ctx.obj(o) {
                     ctx.status.lock().unwrap().insert(1000, (usize::MAX, "flush-sync", o));
-                    match &obj { Obj::D(d) => d.sync(|_| {}), Obj::Q(q, _) => scheduler::sync(q, || {}) };
+                    let id = ctx.ncalls + ctx.clock.fetch_add(1, Ordering::SeqCst) as usize;
+                    rt::emit(&format!("inv {} sync {}", id, o));
+                    let body = || { rt::emit(&format!("beg {}", id)); rt::emit(&format!("end {}", id)); };
+                    match &obj { Obj::D(d) => d.sync(|_| body()), Obj::Q(q, _) => scheduler::sync(q, || body()) };
+                    rt::emit(&format!("ret {} ok", id));
                     ctx.status.lock().unwrap().remove(&1000);
                 }
             }
@@ -609,9 +618,14 @@ pub fn execute(ctx: &Arc<Ctx>) {
     if ctx.max_pool.load(Ordering::SeqCst) == 0 && peak > 0 { ctx.fail(&["C17"], format!("{} pool threads created with a maximum of 0", peak)); }
 
     // shut the pool down; once the threads are gone everything has gone quiet
+    let tid = ctx.ncalls + 1_000_000;
+    rt::emit(&format!("inv {} setmax 0", tid));
     scheduler().verif_set_max_threads(0);
+    rt::emit(&format!("ret {} ok", tid));
     ctx.status.lock().unwrap().insert(1000, (usize::MAX, "despawn", usize::MAX));
+    rt::emit(&format!("inv {} despawn", tid + 1));
     scheduler().despawn_threads_if_overloaded();
+    rt::emit(&format!("ret {} ok", tid + 1));
     ctx.status.lock().unwrap().remove(&1000);
     if vsched::thread::live_named() != 0 { ctx.fail(&["C17"], format!("despawn_threads_if_overloaded returned with {} pool threads alive and a maximum of 0", vsched::thread::live_named())); }
     rt::emit("quiet");
